@@ -23,6 +23,15 @@ E3 configuration explorer.  Four kinds of cells, all enumerated completely insid
                and None conditioned later) x points inside and outside the support x {logpdf, pdf, logd, cdf};
                for dim 1 quadrature of the density and of cdf increments.  One more parameter set per family is
                integer-valued and adds the facet representation {float64, integer dtype / python ints}.
+               Facet ``magnitude of the parameters``: one more cell per (family x magnitude): parameter set 0 with EVERY
+               parameter multiplied by 2^10 / by 2^-10 (sharply concentrated or nearly degenerate shapes, huge / tiny
+               scales, rates and bounds - extreme but legal values) and, for the families with a location (Normal,
+               Laplace, SmoothedLaplace, Cauchy, InverseGamma, Uniform bounds), with the location shifted by 2^20 (large
+               common offset, differences of order one); crossed with dims x passing forms x points (incl. far-tail
+               points) x {logpdf, pdf, logd, cdf} x origins; the unscaled set is enumerated inside the same cell as
+               control, so the facet is named in a signature exactly when it discriminates.  Same explicit references
+               (gammaln-based normalising constants); no quadrature there (the mass sits on a set the fixed
+               break-points do not resolve).
 * ``mrf``    : one cell per (GMRF / LMRF / CMRF x physical dim x N); inside: (bc, order) x geometry kinds x
                location forms (incl. python int, integer array) x hyper-parameter forms (incl. python int,
                integer array) x {0, basis, generic points}.
@@ -68,7 +77,8 @@ from vfw import refs
 PROPERTY = "C04"
 RULE = ("cells = {gauss: target x parameterisation x dim x overall scale of the covariance} + {gauss-int: "
         "integer-valued datum x parameterisation x dim} + {fam: family x parameter set (incl. one integer-valued "
-        "set)} + {mrf: family x physical dim x N} + {user}; every cell enumerates the full inner product (data "
+        "set)} + {fam-magnitude: family x magnitude of the parameters {all x 2^10, all x 2^-10, locations + 2^20}, "
+        "unscaled control inside the cell} + {mrf: family x physical dim x N} + {user}; every cell enumerates the full inner product (data "
         "shapes x both sides of the dense/sparse switch x passing forms x mean/location forms x factor kinds "
         "[x representation of datum {float64, integer} x representation of mean {float, integer}] | dims x "
         "passing forms [x representation] | bc x order x geometry x location x hyper-parameter forms) x the whole "
@@ -101,7 +111,11 @@ BOUND = {
              "{int scalar, float / int vector, int list} + integer-typed points (array, list). "
              "10 univariate/iid families x (3-4 parameter sets + 1 integer-valued set x {float, integer "
              "representation}) x dims {1,2,3,2x2} x <=9 passing forms x (5+2dim "
-             "inside + <=2dim outside) points; 1-D quadrature to 1e-7. MRFs 1-D N=2..6, 2-D N=2..3, (bc=zero, "
+             "inside + <=2dim outside) points; 1-D quadrature to 1e-7. Magnitude facet: 10 families x "
+             "{x2^10, x2^-10} + 6 families with a location x {+2^20}, parameter set 0 transformed, x {unscaled control, "
+             "transformed} x dims {1,2,3,2x2} x <=9 passing forms x the same point alphabet (positions relative to the "
+             "transformed support / scale) + far-tail points x {logpdf, logd, pdf, cdf}, 5 origin routes for the "
+             "transformed set, no quadrature, no scalar-like / process-history facet. MRFs 1-D N=2..6, 2-D N=2..3, (bc=zero, "
              "order 0..2) + (order 1, neumann/periodic) x 7 location forms (5 + python int + integer array) x "
              "<=4 hyper-parameter forms (float, 1-array, callable, python int). Origin facet: fam cells - all 10 "
              "routes at parameter set 0 and the integer-valued set (integer representation), 5 routes (copy, joint "
@@ -129,7 +143,7 @@ BOUND = {
                 "generic points; scale facet at dims {1,2,3,4,5,75,76} with all 5 mean forms; integer facet at "
                 "dims {1,2,3,4,76} with all 6 mean forms (scalar/vector/list x float/int); MRFs 1-D N=2..10, "
                 "2-D N=2..4 and the integer 1-array hyper-parameter form for GMRF; origin facet: all 10 routes at "
-                "every parameter set of the fam cells, Gaussian origin routes at every dimension (integer cells: dims<=4); "
+                "every parameter set of the fam cells (magnitude cells included), Gaussian origin routes at every dimension (integer cells: dims<=4); "
                 "scalar-like facet: Gaussian dims <= 5 (integer cells <= 4) and MRFs with the FULL product (datum / "
                 "location representation) x (mean / hyper-parameter representation) x all passing forms, MRFs also the "
                 "integer-typed representations of the integer-valued location and hyper-parameter; process-history "
@@ -141,7 +155,11 @@ ASSUMPTIONS = [
     "logpdf must equal it at 1e-9 (a refusal is accepted)",
     "values outside the dyadic catalogues (3 catalogues) and dimensions outside the listed ones are not covered",
     "overall scales other than 2^-30, 1, 2^30 are not covered; the scale facet is applied to the Gaussian covariance "
-    "only (not to the iid families / MRFs); representations other than float64, int64 and python int/float (e.g. "
+    "only, the iid families have the magnitude facet {all parameters x 2^10, x 2^-10, locations + 2^20} applied to parameter "
+    "set 0 (magnitudes beyond 2^+-10 of shape parameters are not covered: the gammaln-based reference itself loses the "
+    "1e-9 there; mixed magnitudes - one huge and one tiny parameter - are not covered; no quadrature in the magnitude "
+    "cells: normalisation is decided by the reference formula; ModifiedHalfNormal's magnitude cells are masked by its "
+    "known getter defect); MRFs have no magnitude facet; representations other than float64, int64 and python int/float (e.g. "
     "float32, int32, bool) are not covered; integer-valued parameters are small integers (|v| <= 8)",
     "multi-dimensional normalisation is decided by the reference formula only; quadrature is used for dim 1",
     "scalar-like facet: representations other than the 6 listed (e.g. float32 scalars, one-element tuples, 0-d / 1-element "
@@ -422,6 +440,12 @@ G_INT_DIMS_THOROUGH = [1, 2, 3, 4, 76]
 FAMILIES = ["Normal", "Laplace", "SmoothedLaplace", "Cauchy", "Gamma", "InverseGamma", "Beta", "Uniform",
             "Lognormal", "ModifiedHalfNormal"]
 F_DIMS = ["1", "2", "3", "2x2"]
+# facet "magnitude of the parameters" of the iid families: parameter set 0 with EVERY parameter multiplied by 2^10 /
+# 2^-10 (sharply concentrated / nearly degenerate shapes, huge / tiny scales - all legal), and with the location-type
+# parameters shifted by 2^20 (large common offset, differences of order one; families that have a location)
+F_MAGNITUDES = ["x2^10", "x2^-10", "+2^20"]
+_MAG_FAMILIES = {"Gamma": ["x2^10", "x2^-10"], "Beta": ["x2^10", "x2^-10"], "Lognormal": ["x2^10", "x2^-10"],
+                 "ModifiedHalfNormal": ["x2^10", "x2^-10"]}
 
 MRF_COMBOS = [("zero", 0), ("zero", 1), ("zero", 2), ("neumann", 1), ("periodic", 1)]
 
@@ -458,6 +482,9 @@ def cells(tier, seed):
             for ps in range(len(_PSETS[fam])):
                 yield {"kind": "fam", "family": fam, "pset": ps, "cat": k, "origins": "full" if (thorough or ps == 0) else "light"}
             yield {"kind": "fam", "family": fam, "pset": "int", "cat": k, "origins": "full"}
+            for mag in F_MAGNITUDES:
+                if mag in _MAG_FAMILIES.get(fam, F_MAGNITUDES):
+                    yield {"kind": "fam", "family": fam, "pset": "mag:" + mag, "cat": k, "origins": "full" if thorough else "light"}
         n1 = range(2, 11) if thorough else range(2, 7)
         n2 = range(2, 5) if thorough else range(2, 4)
         for fam in ("GMRF", "LMRF", "CMRF"):
@@ -1066,6 +1093,17 @@ def _params(fam, ps, k, dim):
                 s, v = b + k, [b + k + (i % 3) for i in range(dim)]
             sc[name], vec[name] = float(s), np.array(v, dtype=float)
         return sc, vec
+    if isinstance(ps, str) and ps.startswith("mag:"):
+        sc0, vec0 = _params(fam, 0, k, dim)
+        mag = ps[4:]
+        for name, kind in _SPEC[fam]:
+            if mag == "+2^20":
+                off = 0.0 if kind.startswith("pos") else 2.0 ** 20
+                sc[name], vec[name] = sc0[name] + off, vec0[name] + off
+            else:
+                m = 2.0 ** 10 if mag == "x2^10" else 2.0 ** -10
+                sc[name], vec[name] = sc0[name] * m, vec0[name] * m
+        return sc, vec
     base = _PSETS[fam][ps]
     for (name, kind), b in zip(_SPEC[fam], base):
         if kind.startswith("pos"):
@@ -1255,11 +1293,14 @@ def _fam_configs(fam, dl):
 def _eval_family(cell, res):
     import cuqi
     fam, ps, k = cell["family"], cell["pset"], cell["cat"]
+    ismag = isinstance(ps, str) and ps.startswith("mag:")
     tally = _Tally(res, fam, "")
     cls = getattr(cuqi.distribution, fam)
-    for dl in F_DIMS:
+    # magnitude cells: the unscaled parameter set 0 is enumerated next to the scaled one inside the cell (control), so
+    # that the facet is named in a signature exactly when it discriminates
+    for dl, mag, pp in [(dl, mag, pp) for dl in F_DIMS for mag, pp in ([("1", 0), (ps[4:], ps)] if ismag else [(None, ps)])]:
         dim = 4 if dl == "2x2" else int(dl)
-        sc, vec = _params(fam, ps, k, dim)
+        sc, vec = _params(fam, pp, k, dim)
         modes = [("dense", None)] + ([("sparse", dim - 1)] if fam == "Lognormal" and dim > 1 else [])
         for passing, gkind, shapes in _fam_configs(fam, dl):
             for path, minval in modes:
@@ -1275,10 +1316,14 @@ def _eval_family(cell, res):
                             fac["path"] = path
                         if rep:
                             fac["rep"] = rep
+                        if mag:
+                            fac["magnitude"] = mag
                         _family_config(cuqi, cls, res, tally, cell, fam, fac, shapes, dim, dl, sc, vec)
                 finally:
                     cuqi.config.MIN_DIM_SPARSE = old
     tally.flush()
+    if ismag:      # (the magnitude facet is crossed with dims x passing forms x points x origins, not with the two facets below)
+        return
     _family_scalar_likes(cuqi, cls, res, cell, fam)
     _family_history(cuqi, cls, res, cell, fam)
 
@@ -1482,6 +1527,8 @@ def _family_config(cuqi, cls, res, tally, cell, fam, fac, shapes, dim, dl, sc, v
     tag = "%s/%s/%s/%s" % (dl, passing, gkind, ",".join("%s=%s" % kv for kv in sorted(shapes.items())))
     if "rep" in fac:
         tag += "/" + fac["rep"]
+    if "magnitude" in fac:
+        tag += "/magnitude " + fac["magnitude"]
     kwargs["name"] = "x"
     res.state(tag + "/" + fac.get("path", ""))
     res.transitions += 1
@@ -1500,8 +1547,8 @@ def _family_config(cuqi, cls, res, tally, cell, fam, fac, shapes, dim, dl, sc, v
         return
     inside, outside = _fam_points(fam, eff, dim)
     R = {"inside": inside, "outside": outside, "cache": {}, "eff": eff, "Sigma": Sigma, "dim": dim, "tag": tag}
-    if not _family_observe(res, tally, cell, fam, fac, d0, d, cond, R, None) or fac.get("rep") == "float":
-        return      # (the float64 control of the integer-valued parameter set is examined as constructed only)
+    if not _family_observe(res, tally, cell, fam, fac, d0, d, cond, R, None) or fac.get("rep") == "float" or fac.get("magnitude") == "1":
+        return      # (the float64 control of the integer-valued parameter set / the unscaled control of a magnitude cell is examined as constructed only)
     # provenance facet: the same distribution obtained on the other documented routes (copies, reduction of a
     # joint distribution with 1 / 2 fixed variables at once and stepwise, member of a joint) - same observables
     for origin, obj, offset in _provenances(cuqi, res, d0, d, cond, k, _ORIGINS_FULL if cell.get("origins", "full") == "full" else _ORIGINS_LIGHT, dim):
@@ -1689,7 +1736,7 @@ def _family_observe(res, tally, cell, fam, fac, d0, d, cond, R, offset):
                                (x.tolist(), v, side, r))
     # 1-D: quadrature (other origins: the object obtained by reducing a joint distribution with one fixed variable)
     if good and dim == 1 and passing in ("plain", "callable") and not upto_const and fam != "SmoothedLaplace" \
-            and (full or origin == "joint1"):
+            and (full or origin == "joint1") and not str(cell["pset"]).startswith("mag:"):
         _family_quadrature(res, tally, fac, d, fam, eff, light=not direct, with_pdf=pdf_good)
     return bool(good)
 
